@@ -115,9 +115,57 @@ let c08 (w : string list) : string =
      | _ -> "panic")
   | _ -> failwith ("c08: bad command: " ^ String.concat " " w)
 
+(* ---- C09 ---- *)
+let gen_bytes (mode : string) (seed : int) (n : int) : n list =
+  match mode with
+  | "seq" ->
+    List.init n (fun i ->
+      let w = ((i / 2) + seed) land 0xFFFF in
+      n_of_int (if i land 1 = 0 then w land 0xFF else w lsr 8))
+    |> (fun l -> if n land 1 = 1 then (List.rev (N0 :: List.tl (List.rev l))) else l)
+  | _ ->
+    let s = ref (Int64.of_int seed) in
+    List.init n (fun _ ->
+      s := Int64.add (Int64.mul !s 6364136223846793005L) 1442695040888963407L;
+      n_of_int (Int64.to_int (Int64.shift_right_logical !s 56)))
+
+let digest_bytes (l : n list) : int =
+  List.fold_left (fun h b -> dg_step h (int_of_n b)) 0 l
+
+let kpath_of = function
+  | "portable" -> Portable
+  | "scalar" -> ScalarAsm
+  | "disp1" -> Dispatch true
+  | "disp0" -> Dispatch false
+  | s -> failwith ("bad path " ^ s)
+
+let c09 (w : string list) : string =
+  match w with
+  | "kern" :: path :: acc :: c :: len :: mode :: seed :: _nalign :: rest ->
+    let acc = (acc = "1") and c = n_of_int (int_of_string c) in
+    let n = int_of_string len and seed = int_of_string seed in
+    let inb = gen_bytes mode seed n and outb = gen_bytes "rand" (seed + 1) n in
+    let spec = kspec_fast acc c inb outb in
+    (match kernel (kpath_of path) acc c inb outb with
+     | Ok o ->
+       if rest = ["full"] then Printf.sprintf "ok %s %s" (hex_of_bytes o) (hex_of_bytes spec)
+       else Printf.sprintf "ok %d %d" (digest_bytes o) (digest_bytes spec)
+     | _ -> "panic 0 0")
+  | _ -> failwith "c09: bad command"
+
+let c09mm (w : string list) : string =
+  match w with
+  | [path; acc; li; lo] ->
+    let z n = List.init (int_of_string n) (fun _ -> N0) in
+    (match kernel (kpath_of path) (acc = "1") (n_of_int 3) (z li) (z lo) with
+     | Ok _ -> "ok" | _ -> "panic")
+  | _ -> failwith "c09mm: bad command"
+
 let dispatch (line : string) : string =
   match String.split_on_char ' ' (String.trim line) with
   | "c08" :: w -> c08 w
+  | "c09" :: w -> c09 w
+  | "c09mm" :: w -> c09mm w
   | _ -> failwith ("bad line: " ^ line)
 
 let () =
